@@ -11,6 +11,7 @@ package srp
 //  you to understand this secure-like shit created by telegram developers.
 
 import (
+	"crypto/rand"
 	"crypto/sha256"
 	"crypto/sha512"
 	"math/big"
@@ -27,7 +28,13 @@ const (
 // GetInputCheckPassword считает нужные для 2FA хеши, описан в доке телеграма:
 // https://core.telegram.org/api/srp#checking-the-password-with-srp
 func GetInputCheckPassword(password string, srpB []byte, mp *ModPow) (*SrpAnswer, error) {
-	return getInputCheckPassword(password, srpB, mp, dry.RandomBytes(randombyteLen))
+	// a is secret of srp, must be taken from the OS cryptographic random source
+	random := make([]byte, randombyteLen)
+	if _, err := rand.Read(random); err != nil {
+		return nil, errors.Wrap(err, "generating random number")
+	}
+
+	return getInputCheckPassword(password, srpB, mp, random)
 }
 
 func getInputCheckPassword(
